@@ -33,6 +33,7 @@
 package main
 
 import (
+	"encoding/base64"
 	"fmt"
 	"math/rand"
 	"net"
@@ -46,6 +47,7 @@ import (
 
 	clientproxy "github.com/fatedier/frp/client/proxy"
 	"github.com/fatedier/frp/pkg/config/v1/validation"
+	"github.com/fatedier/frp/pkg/msg"
 
 	"verif/h"
 )
@@ -67,6 +69,14 @@ type world struct {
 func (w *world) addr() string { return fmt.Sprintf("127.0.0.1:%d", w.Port) }
 
 var worlds []*world
+
+// fetchWorlds: [tcpMux on (scripted owner), tcpMux off (real frpc behind a refusing relay)], userConnTimeout = fetchTimeoutS
+var fetchWorlds []*world
+
+const fetchTimeoutS = 2
+
+// progress watchdog for "frps asks again": a failed fetch costs userConnTimeout + 1 s; 3x that + 10 s and some
+const askAgainWait = 25 * time.Second
 
 func serverText(port, size int, mux bool) string {
 	return fmt.Sprintf(`
@@ -150,8 +160,22 @@ func main() {
 		}
 	}
 
+	// two servers with a short userConnTimeout for the failed-work-connection-fetch schedules
+	for _, mux := range []bool{true, false} {
+		port := pa.Get()
+		srv, err := h.StartServerText(prop, serverText(port, 4096, mux)+fmt.Sprintf("userConnTimeout = %d\n", fetchTimeoutS))
+		if err != nil {
+			fmt.Fprintln(os.Stderr, "server:", err)
+			os.Exit(h.ExitHarnessError)
+		}
+		fetchWorlds = append(fetchWorlds, &world{Size: 4096, Mux: mux, Port: port, srv: srv})
+	}
+
 	n := run.N(110, 1300)
 	run.Parallel(n, 10, oneCase)
+	for _, w := range fetchWorlds {
+		w.srv.Close()
+	}
 	for _, w := range worlds {
 		w.srv.Close()
 	}
@@ -655,9 +679,9 @@ func (e *env) recoverWindow(max time.Duration) bool {
 
 func oneCase(c *h.Case) {
 	rng := c.Rng
-	nIdle, nClose, nRepl, nBack := 2, 4, 6, 6
+	nIdle, nClose, nRepl, nBack, nFetch := 2, 4, 6, 6, 7
 	if run.Thorough() {
-		nIdle, nClose, nRepl, nBack = 8, 24, 60, 60
+		nIdle, nClose, nRepl, nBack, nFetch = 8, 24, 60, 60, 50
 	}
 	if c.Idx < nIdle {
 		idleCase(c)
@@ -673,6 +697,14 @@ func oneCase(c *h.Case) {
 	}
 	if c.Idx < nIdle+nClose+nRepl+nBack {
 		backendCase(c)
+		return
+	}
+	if c.Idx < nIdle+nClose+nRepl+nBack+nFetch {
+		if c.Idx%2 == 0 {
+			fetchCase(c)
+		} else {
+			refuseCase(c)
+		}
 		return
 	}
 	r := rng.Intn(100)
@@ -1236,4 +1268,221 @@ func backendCase(c *h.Case) {
 	if c.Idx%3 == 0 {
 		run.Sample(map[string]any{"case": c.Idx, "kind": "backend-restart-" + kind, "world": c.Data["world"], "tunnels": specs, "users": nu, "cycles": cycles})
 	}
+}
+
+// fetchCase: GetWorkConnFromPool fails (nobody answers ReqWorkConn within userConnTimeout) while the control
+// session stays up; later requests are answered. Scripted owner, tcpMux on.
+func fetchCase(c *h.Case) {
+	rng := c.Rng
+	w := fetchWorlds[0]
+	e := newEnv(c, w)
+	defer e.close()
+	spec := randSpec(rng, "udp")
+	if spec.Limit == "client" {
+		spec.Limit = "" // a client-mode limit lives in frpc, which is scripted here
+	}
+	t := &tunnel{Idx: 0, Kind: "udp", Name: e.pfx + "fetch", Enc: spec.Enc, Comp: spec.Comp, Limit: spec.Limit}
+	t.Public = &net.UDPAddr{IP: net.IPv4(127, 0, 0, 1), Port: e.cs.getPort()}
+	t.be = &backend{cs: e.cs, tun: 0, froms: map[string]map[int]bool{}}
+	e.cs.tunnels = append(e.cs.tunnels, t)
+	nu := 1 + rng.Intn(3)
+	c.Data["kind"], c.Data["tunnels"], c.Data["users"] = "failed-fetch-scripted-owner", []tunSpec{spec}, nu
+	c.Data["world"] = map[string]any{"udpPacketSize": w.Size, "tcpMux": w.Mux, "userConnTimeout": fetchTimeoutS}
+
+	p, err := h.DialPeer(h.PeerOpts{ServerPort: w.Port, TCPMux: true, Token: token})
+	if err != nil || !p.LoggedIn() {
+		run.Inconclusive("setup: scripted owner login")
+		return
+	}
+	e.closers = append(e.closers, p.Close)
+	np := &msg.NewProxy{ProxyName: t.Name, ProxyType: "udp", RemotePort: t.Public.Port, UseEncryption: t.Enc, UseCompression: t.Comp}
+	if t.Limit == "server" {
+		np.BandwidthLimit, np.BandwidthLimitMode = generousLimit, "server"
+	}
+	resp, err := p.NewProxy(np, 10*time.Second)
+	if err != nil || resp.Error != "" {
+		c.Ev("setup-failed", "resp", fmt.Sprint(resp), "err", fmt.Sprint(err))
+		run.Inconclusive("setup: scripted owner could not register the udp proxy")
+		return
+	}
+	if err := e.addUsers([]int{nu}); err != nil {
+		run.Inconclusive("setup: user sockets")
+		return
+	}
+	// serve plays frpc's udp proxy and the backend at once on a started work connection
+	serve := func(wc *h.WorkConn) {
+		rwc, err := h.Wrap(wc.Conn, token, t.Enc, t.Comp)
+		if err != nil {
+			return
+		}
+		var wmu sync.Mutex
+		for {
+			m, err := msg.ReadMsg(rwc)
+			if err != nil {
+				return
+			}
+			um, ok := m.(*msg.UDPPacket)
+			if !ok {
+				continue
+			}
+			buf, err := base64.StdEncoding.DecodeString(um.Content)
+			if err != nil {
+				c.Violation("work-connection-frame-not-base64", "UDPPacket on the work connection carries content that is not base64: %q", clip([]byte(um.Content)))
+				continue
+			}
+			raddr := um.RemoteAddr
+			t.be.handle(buf, "work-conn:"+raddr.String(), func(rp []byte) {
+				wmu.Lock()
+				_ = msg.WriteMsg(rwc, &msg.UDPPacket{Content: base64.StdEncoding.EncodeToString(rp), RemoteAddr: raddr})
+				wmu.Unlock()
+			})
+		}
+	}
+	sig := &lenSig{}
+	var cur *h.WorkConn
+	seen := func() int64 { return p.ReqWorkConnSeen.Load() }
+	for _, phase := range []string{"start-up", "replacement"} {
+		n0 := int64(0) // start-up: every ReqWorkConn of this fresh session counts
+		if phase == "replacement" {
+			n0 = seen()
+			cur.Conn.Close() // the work connection dies; frps has to fetch another one
+			c.Ev("work-conn-closed-by-owner")
+		}
+		k := 1 + rng.Intn(2)
+		c.Ev("phase", "name", phase, "requests_ignored", k, "req_seen_before", n0)
+		if !h.Eventually(askAgainWait, func() bool { return seen() > n0 }) {
+			run.Inconclusive("frps never asked for a work connection (" + phase + ")")
+			return
+		}
+		tFirst := h.Now()
+		// into the void: one datagram per user while no work connection exists (may be lost or delivered late)
+		var wg sync.WaitGroup
+		for _, u := range e.users {
+			wg.Add(1)
+			go func(u *user) {
+				defer wg.Done()
+				u.exchange(exSpec{L: 50 + u.Idx, RepL: []int{30}}, 300*time.Millisecond, false)
+			}(u)
+		}
+		wg.Wait()
+		for i := 1; i <= k; i++ {
+			// request n0+i is ignored: the fetch fails after userConnTimeout; frps must ask again
+			if !h.Eventually(askAgainWait, func() bool { return seen() > n0+int64(i) }) {
+				c.Ev("never-asked-again", "phase", phase, "requests_seen", seen()-n0, "ignored", i)
+				c.Violation("work-connection-never-requested-again-after-failed-fetch",
+					"%s: the owner (control session up, %s registered) did not answer %d ReqWorkConn, so frps's fetch failed after userConnTimeout=%ds; no further ReqWorkConn arrived within %v after the ignored one (first request of this phase %d ms ago) - frps has given up fetching a work connection for the proxy",
+					phase, t.describe(), i, fetchTimeoutS, askAgainWait, (h.Now()-tFirst)/1e6)
+				return
+			}
+			run.Count("failed_fetches", 1)
+		}
+		wc, err := p.OpenWorkConn()
+		if err != nil {
+			run.Inconclusive("scripted owner could not open a work connection")
+			return
+		}
+		st, err := wc.ReadStart(15 * time.Second)
+		if err != nil || st.ProxyName != t.Name {
+			c.Ev("no-start", "err", fmt.Sprint(err), "start", fmt.Sprint(st))
+			run.Inconclusive("offered work connection was not started for the udp proxy")
+			return
+		}
+		cur = wc
+		go serve(wc)
+		c.Ev("work-conn-started", "phase", phase, "after_ms", (h.Now()-tFirst)/1e6)
+		time.Sleep(500 * time.Millisecond)
+		note := fmt.Sprintf(" — %s: %d ReqWorkConn went unanswered (fetch failed after userConnTimeout=%ds each), the next one was answered, frps sent StartWorkConn on that connection and this datagram was sent at least 500 ms later", phase, k, fetchTimeoutS)
+		plan := map[*user][]exSpec{}
+		for _, u := range e.users {
+			for i := 0; i < 3; i++ {
+				sp := pickSpec(rng, w.Size, true)
+				sp.ArriveKey, sp.LossKey, sp.Note = "datagram-lost-after-failed-work-connection-fetch", "reply-lost-after-failed-work-connection-fetch", note
+				plan[u] = append(plan[u], sp)
+				sig.add(sp)
+			}
+		}
+		if !e.lightRound(plan, exWait) {
+			e.tally("fetch-" + phase)
+			return
+		}
+		time.Sleep(200 * time.Millisecond)
+	}
+	e.tally("fetch")
+	run.Count("cases_failed_fetch", 1)
+	run.Distinct(fmt.Sprintf("fetch|scripted|%v|%d|%s", spec, nu, sig.sig()))
+	if c.Idx%4 == 0 {
+		run.Sample(map[string]any{"case": c.Idx, "kind": "failed-fetch-scripted-owner", "world": c.Data["world"], "tunnel": spec, "users": nu})
+	}
+}
+
+// refuseCase: real frpc behind the relay, tcpMux off: the work connections are cut and the relay refuses new
+// connections for 3.5 s (at least one fetch of frps fails after userConnTimeout), then lets them through.
+func refuseCase(c *h.Case) {
+	rng := c.Rng
+	w := fetchWorlds[1]
+	e := newEnv(c, w)
+	defer e.close()
+	e.plainWire = true
+	specs := []tunSpec{randSpec(rng, "udp")}
+	nu := 1 + rng.Intn(3)
+	c.Data["kind"], c.Data["tunnels"], c.Data["users"] = "failed-fetch-refusing-relay", specs, nu
+	c.Data["world"] = map[string]any{"udpPacketSize": w.Size, "tcpMux": w.Mux, "userConnTimeout": fetchTimeoutS}
+	if err := e.build(specs, true); err != nil {
+		run.Inconclusive("setup: " + trimErr(err))
+		return
+	}
+	if err := e.addUsers([]int{nu}); err != nil || !e.first() {
+		return
+	}
+	sig := &lenSig{}
+	if !e.lightRound(e.genLight(1, sig, false), exWait) {
+		return
+	}
+	relay := e.relays["owner"]
+	e.cs.quiesce(200*time.Millisecond, 5*time.Second)
+	relay.SetRefuse(true)
+	before := len(relay.Pairs())
+	n := e.cut("owner", true)
+	tCut := h.Now()
+	c.Ev("cut-and-refuse", "connections_closed", n)
+	run.Count("cuts", 1)
+	run.Count("cuts_work_connection_only", 1)
+	refuseFor := 3500 * time.Millisecond
+	time.Sleep(refuseFor)
+	relay.SetRefuse(false)
+	c.Ev("relay-accepts-again")
+	started := func() bool {
+		for _, p := range relay.Pairs()[before:] {
+			if _, down := p.Captured(); len(down) > 0 && down[0] == 's' {
+				return true
+			}
+		}
+		return false
+	}
+	if !h.Eventually(askAgainWait, started) {
+		c.Violation("no-work-connection-after-failed-fetch",
+			"the relay cut the work connections of frpc (control connection untouched) and refused new connections for %v, so at least one fetch of frps failed after userConnTimeout=%ds; %v after the relay accepted connections again frps has not started a work connection for the udp proxy (%s) - %d connections were relayed since",
+			refuseFor, fetchTimeoutS, askAgainWait, e.cs.tunnels[0].describe(), len(relay.Pairs())-before)
+		return
+	}
+	run.Count("failed_fetches", 1)
+	c.Ev("work-conn-started", "after_ms", (h.Now()-tCut)/1e6)
+	time.Sleep(time.Second)
+	note := fmt.Sprintf(" — the relay had refused frpc's work-connection dials for %v (fetch of frps failed after userConnTimeout=%ds), then frps started a new work connection (StartWorkConn seen at the relay) and this datagram was sent at least 1 s later", refuseFor, fetchTimeoutS)
+	plan := map[*user][]exSpec{}
+	for _, u := range e.users {
+		for i := 0; i < 3; i++ {
+			sp := pickSpec(rng, w.Size, true)
+			sp.ArriveKey, sp.LossKey, sp.Note = "datagram-lost-after-failed-work-connection-fetch", "reply-lost-after-failed-work-connection-fetch", note
+			plan[u] = append(plan[u], sp)
+			sig.add(sp)
+		}
+	}
+	if !e.lightRound(plan, exWait) {
+		e.tally("refuse")
+		return
+	}
+	e.tally("refuse")
+	run.Count("cases_failed_fetch", 1)
+	run.Distinct(fmt.Sprintf("fetch|relay|%v|%d|%s", specs, nu, sig.sig()))
 }
